@@ -12,6 +12,8 @@ import random
 
 import core
 
+_PQ = []          # priority-queue histories recorded while networks are prepared (per worker process)
+
 LEGS = [(2, 0), (4, 0), (6, 0), (-2, 0), (-4, 0), (0, 2), (0, 4), (0, 6), (0, -2), (0, -4),
         (6, 8), (8, 6), (-6, 8), (8, -6), (3, 4), (4, 3), (-4, 3), (3, -4)]
 
@@ -96,15 +98,20 @@ def run_case(edges, res, margin, obs, radius, noise):
     from fractions import Fraction
     r2 = Fraction(radius) ** 2
     e = {"ev": "mapOnNetwork", "edges": [[list(p) for p in g] for g in edges], "obs": [list(p) for p in obs],
-         "r2": [r2.numerator, r2.denominator], "raised": False, "zerodiv": False, "states": [], "pre": [], "post": [],
+         "r2": [r2.numerator, r2.denominator], "raised": False, "zerodiv": False, "states": [], "cands": [], "pre": [], "post": [],
          "cfg": {"res": res, "margin": margin, "radius": radius, "noise": noise}}
     xs = [p[0] for g in edges for p in g]
     ys = [p[1] for g in edges for p in g]
     if res is not None:          # domain: at least one cell per axis
         res = (min(res[0], max(1, (max(xs) - min(xs)) // 2)), min(res[1], max(1, (max(ys) - min(ys)) // 2)))
         e["cfg"]["res"] = res
+    from drivers import prio_common
+    prio_common.install_wrappers()
+    prio_common.take_logs()
     with core.quiet():
         net = build_network(edges, res, margin)
+    # histories of the priority queues used by prepare() (validated by PrioDictTrace, see run())
+    _PQ.extend({"src": "prepare", "steps": st} for st in prio_common.take_logs() if all(x["v"] is not None for x in st))
     t0 = ObsTime(2020, 6, 15, 12, 0, 0).toAbsTime()
     tr = Track([Obs(ENUCoords(float(p[0]), float(p[1]), 0.0), ObsTime.readUnixTime(t0 + 10 * k)) for k, p in enumerate(obs)])
     ids = {}
@@ -122,6 +129,8 @@ def run_case(edges, res, margin, obs, radius, noise):
             mapOnNetwork(tr, net, gps_noise=noise, search_radius=radius, verbose=False)
             inf = [tr["hmm_inference", k] for k in range(tr.size())]
         e["states"] = [abstract_state(s, edges) for s in inf]
+        # the candidate lists the decoder chose from (module global of tracklib.algo.mapping)
+        e["cands"] = [[abstract_state(c, edges) for c in cl] for cl in mp_.STATES]
     except ZeroDivisionError as ex:
         e["raised"] = True
         e["zerodiv"] = True
@@ -132,9 +141,8 @@ def run_case(edges, res, margin, obs, radius, noise):
     e["post"] = snap()
     e["cfg"] = repr(e["cfg"])
     e.pop("exc", None) if not e["raised"] else None
-    for st in e["states"]:
-        if "raw" in st:
-            st["raw"] = repr(st["raw"])
+    for st in e["states"] + [c for cl in e["cands"] for c in cl]:
+        st.pop("raw", None)
     return e
 
 
@@ -201,6 +209,7 @@ RADII = [0.5, 1, 2.5, 5, 10, 20]
 def job_random(args):
     seed, count = args
     rnd = random.Random(seed)
+    del _PQ[:]
     out = []
     for _ in range(count):
         style = rnd.random()
@@ -209,7 +218,7 @@ def job_random(args):
         res = rnd.choice(RES)
         margin = rnd.choice([0.05, 0.15, 0.5])
         out.append(run_case(edges, res, margin, obs, rnd.choice(RADII), rnd.choice([1, 50])))
-    return out
+    return out + [{"ev": "pq", "hist": h} for h in _PQ[:40]]
 
 
 def grid_edges(nx, ny, step):
@@ -274,6 +283,14 @@ def run(ctx):
         res = [pool.apply_async(f, (a,)) for f, a in jobs]
         for r in res:
             events.extend(r.get())
+    pq = [e["hist"] for e in events if e["ev"] == "pq"]
+    events = [e for e in events if e["ev"] != "pq"]
+    for k, h in enumerate(pq):
+        h["id"] = k
+    rejq = ctx.tlc_trace("PrioDictTrace", pq, chunks=8, label="priority queues inside Network.prepare")
+    for i, clause in sorted(rejq.items()):
+        ctx.violation("prepare/priority_dict/%s" % clause, "priority queue history recorded inside Network.prepare(): %s" % clause, pq[i])
+    ctx.extra["priority_queue_histories_inside_prepare"] = len(pq)
     for k, e in enumerate(events):
         e["id"] = k
     rej = ctx.tlc_trace("MapMatchTrace", events, chunks=16, label="map-matching trace")
